@@ -11,6 +11,8 @@ live library is taken before and after every operation.
 import json
 import os
 import random
+
+from rdkit import Chem
 import subprocess
 import sys
 
@@ -134,9 +136,17 @@ def gen_history(rng, pools):
         if r < 0.34 or not decs:
             o, n = rng.choice(objs)
             smi = rng.choice(mols[n])
-            decs.append((len(decs), o, n, smi))
+            # input form: SMILES text, a fresh Mol object, or ONE Mol object
+            # (without / with explicit H) shared by every such step of the
+            # history, whichever library object receives it
+            form = rng.choice(['smiles'] * 6 + ['mol', 'mol_shared',
+                                                'mol_shared', 'molH_shared'])
+            arg = {'smiles': smi, 'mol': 'mol:' + smi,
+                   'mol_shared': 'mol:' + smi,
+                   'molH_shared': 'molH:' + smi}[form]
+            decs.append((len(decs), o, n, smi, arg))
             ops.append({'op': 'decompose', 'dec': decs[-1][0], 'obj': o,
-                        'db': n, 'smiles': smi})
+                        'db': n, 'smiles': smi, 'form': form, 'arg': arg})
         elif r < 0.56:
             d = rng.choice(decs[-6:]) if rng.random() < 0.5 else \
                 rng.choice(decs)
@@ -145,7 +155,7 @@ def gen_history(rng, pools):
             o = rng.choice(cands)
             ests.append((len(ests), d[0]))
             ops.append({'op': 'estimate', 'est': ests[-1][0], 'dec': d[0],
-                        'obj': o, 'db': d[2], 'smiles': d[3],
+                        'obj': o, 'db': d[2], 'smiles': d[3], 'arg': d[4],
                         'latest_dec_of_obj': max(
                             [x[0] for x in decs if x[1] == o] or [-1])})
         elif r < 0.88 and ests:
@@ -182,8 +192,8 @@ def needed_keys(ops):
     keys = {}
     for op in ops:
         if op['op'] == 'decompose':
-            dec_of[op['dec']] = (op['db'], op['smiles'])
-            keys.setdefault((op['db'], op['smiles']), set())
+            dec_of[op['dec']] = (op['db'], op.get('arg', op['smiles']))
+            keys.setdefault((op['db'], op.get('arg', op['smiles'])), set())
         elif op['op'] == 'estimate':
             est_of[op['est']] = dec_of[op['dec']]
         elif op['op'] == 'eval':
@@ -197,6 +207,7 @@ def run_history(ctx, hid, ops, table):
     from pgradd.GroupAdd.Scheme import GroupAdditivityScheme
     case = {'history': hid, 'ops': ops}
     objs, decs, ests = {}, {}, {}
+    shared_mols = {}
     est_meta = {}
     states = {}
     compared = 0
@@ -235,9 +246,22 @@ def run_history(ctx, hid, ops, table):
             ctx.count('loads_compared_with_fresh_digest')
         elif kind == 'decompose':
             lib = objs[op['obj']]
-            o = observe(lib.GetDescriptors, op['smiles'])
+            form = op.get('form', 'smiles')
+            if form == 'smiles':
+                arg = op['smiles']
+            elif form == 'mol':
+                arg = Chem.MolFromSmiles(op['smiles'])
+            else:
+                if (form, op['smiles']) not in shared_mols:
+                    m_ = Chem.MolFromSmiles(op['smiles'])
+                    shared_mols[(form, op['smiles'])] = \
+                        Chem.AddHs(m_) if form == 'molH_shared' else m_
+                arg = shared_mols[(form, op['smiles'])]
+                ctx.count('decompositions_of_a_shared_mol_object')
+            o = observe(lib.GetDescriptors, arg)
             ctx.evals()
-            fresh = table['descriptors']['%s|%s' % (op['db'], op['smiles'])]
+            fresh = table['descriptors']['%s|%s' % (
+                op['db'], op.get('arg', op['smiles']))]
             if 'exc' in o:
                 decs[op['dec']] = None
                 if fresh.get('exc') != o['exc']:
@@ -277,8 +301,9 @@ def run_history(ctx, hid, ops, table):
             kw = {'S_elements': True} if op['s_el'] else {}
             o = observe(getattr(e, op['prop']), op['T'], **kw)
             ctx.evals()
-            key = '%s|%s|%s|%r|%r' % (meta['db'], meta['smiles'], op['prop'],
-                                      op['T'], op['s_el'])
+            key = '%s|%s|%s|%r|%r' % (meta['db'],
+                                      meta.get('arg', meta['smiles']),
+                                      op['prop'], op['T'], op['s_el'])
             fresh = table['values'].get(key)
             if fresh is None:
                 continue
